@@ -166,3 +166,25 @@ def check_equal(smt2, params, spec_):
         if not out or out[0] != "unsat":
             return {"status": "INCONCLUSIVE", "stats": stats, "detail": "z3 did not confirm the term identity: %s" % (out[:2],)}
     return {"status": "PASS", "stats": stats, "solver_s": solver_s}
+
+
+def check_shared_writes(smt2, params, spec_):
+    """C12 (module-level entry points): no assignment to shared static storage after the marker.  params: marker, statics_only, nin"""
+    t0 = time.time()
+    vc = vcalg.VC(smt2)
+    sw = shared_writes_after_marker(vc, params.get("marker", "vf_marker"))
+    stats = {"vc_definitions": len(vc.defs), "eval_s": round(time.time() - t0, 2)}
+    if sw is None:
+        return {"status": "INCONCLUSIVE", "stats": stats, "detail": "marker assignment not found in the exported VC"}
+    sw = {b: [x for x in v if not _is_phi_copy(vc, x)] for b, v in sw.items()}
+    if params.get("statics_only"):
+        sw = {b: v for b, v in sw.items() if not b.startswith("symex_dynamic::")}
+    sw = {b: v for b, v in sw.items() if v}
+    stats["shared_objects_assigned_after_marker"] = sorted(sw)
+    stats["assignments_after_marker"] = sum(1 for _ in vc.defs)
+    if sw:
+        rnd = random.Random(5)
+        return {"status": "FAIL", "stats": stats, "replay_inputs": [str(rnd.getrandbits(40)) for _ in range(params.get("nin", 64))],
+                "replay_defs": {"VF_TSAN_REPLAY": None}, "replay_sanitizer": "thread",
+                "detail": "the call assigns shared (not thread-local) static objects: " + ", ".join("%s (%s)" % (b, v[0]) for b, v in sorted(sw.items())[:4])}
+    return {"status": "PASS", "stats": stats}
